@@ -204,3 +204,28 @@ func vh_C15_Cor_ManyPendingAtCompletion() {
 	vfAssert("caller-released-when-target-completes", all)
 	vfReach("end")
 }
+
+// a queue closed with items still waiting in it: every call that begins after Close returned reports the close - the
+// leftovers are not handed out by Take / TakeWithTimeout / Poll afterwards
+func vh_C15_Queue_ClosedWithBacklog() {
+	q := NewBufferedChannelQueue[int](2, 1, 1)
+	backlog := vfRange("backlog", 0, 3)
+	for i := 0; i < backlog; i++ {
+		q.Offer(vfInt("item"))
+	}
+	vfQuiesce()
+	q.Close()
+	switch vfChoose("call", 3) {
+	case 0:
+		_, err := q.Take()
+		vfAssert("take-after-close-reports-closed", err == ErrQueueIsClosed)
+	case 1:
+		_, err := q.TakeWithTimeout(100 * time.Millisecond)
+		vfAssert("take-after-close-reports-closed", err == ErrQueueIsClosed)
+	default:
+		_, err := q.Poll()
+		vfAssert("poll-after-close-reports-closed", err == ErrQueueIsClosed)
+	}
+	vfAssert("offer-after-close-reports-closed", q.Offer(vfInt("item")) == ErrQueueIsClosed)
+	vfReach("end")
+}
